@@ -460,7 +460,7 @@ func genC16(r *sim.Rand, tier string) *sim.Program {
 			if via >= 3 {
 				via = 1 // a foreign / failing session is a fault
 			}
-			p.Add("dlv", m, f, r.Intn(3), 0, 0, party, vmode, variant, via, at).WithB(r.Bytes(32))
+			p.Add("dlv", m, f, r.Intn(3), 0, 0, party, vmode, variant, via, at, r.PickInt(0, 0, 0, 0, 0, 1)).WithB(r.Bytes(32))
 			continue
 		}
 		if r.Chance(1, 8) {
@@ -508,7 +508,7 @@ func genC16(r *sim.Rand, tier string) *sim.Program {
 		if extra == nil {
 			extra = r.Bytes(32)
 		}
-		p.Add("dlv", m, f, a, b, c, party, vmode, variant, via, at).WithB(extra)
+		p.Add("dlv", m, f, a, b, c, party, vmode, variant, via, at, r.PickInt(0, 0, 0, 0, 0, 1)).WithB(extra)
 	}
 	if r.Chance(1, 6) {
 		p.Add("der", r.Intn(1<<30), r.Intn(3))
